@@ -1,8 +1,6 @@
 use crate::impl_::gc_node::GcCtx;
 use crate::impl_::listener::Listener;
-use crate::impl_::node::{
-    box_clone_vec_is_node, box_clone_vec_is_weak_node, IsNode, IsWeakNode, Node,
-};
+use crate::impl_::node::{box_clone_vec_is_node, IsNode, IsWeakNode, Node};
 
 use parking_lot::Mutex;
 use std::mem;
@@ -364,15 +362,10 @@ impl SodiumCtx {
         // if self changed then update dependents
         let changed = node.data.changed.load(Ordering::SeqCst);
         if changed {
-            let dependents = box_clone_vec_is_weak_node(&node.data().dependents.read());
-            {
-                let _self = &self;
-                for dependent in dependents {
-                    if let Some(dependent2) = dependent.upgrade() {
-                        _self.update_node(dependent2.node());
-                    }
-                }
-            }
+            // Queue the dependents instead of visiting them depth-first from here: this node's
+            // own dependents may depend on nodes that have not been updated yet, and a node
+            // reached from below would run before them (and be marked visited for good).
+            self.add_dependents_to_changed_nodes(node);
         }
     }
 
